@@ -169,7 +169,15 @@ def build_request(verb, tmpl, params, values, body="valid"):
             elif prm["loc"] == "form":
                 form.append((wire(prm), x))
     has_body = any((not q["ctx"]) and q["loc"] == "body" for q in params)
-    if has_body:
+    list_body = any((not q["ctx"]) and q["loc"] == "body" and q["type"].startswith("[]") for q in params)
+    if has_body and list_body:
+        # a list of models: the same variants, with the faulty document as the SECOND element where that makes sense
+        ok = '{"name":"x","count":2}'
+        bodyv = {"valid": "[%s,%s]" % (ok, ok), "missing": None, "malformed": '[%s,{"name":' % ok,
+                 "illtyped": '[%s,{"name":5,"count":2}]' % ok, "norequired": '[%s,{"count":1}]' % ok,
+                 "unicode": '[{"name":"héllo ✓ <&>","count":-1}]', "null": "null",
+                 "trailing": '[%s] -- and more' % ok, "twodocs": '[%s] [%s]' % (ok, ok), "whitespace": " \r\n"}[body]
+    elif has_body:
         bodyv = {"valid": '{"name":"x","count":2}', "missing": None, "malformed": '{"name":',
                  "illtyped": '{"name":5,"count":2}', "norequired": '{"count":1}',
                  "unicode": '{"name":"héllo ✓ <&>","count":-1}', "null": "null",
@@ -395,11 +403,21 @@ def match_known(known, case):
 
 # ------------------------------------------------------------------ main
 
+def list_bodies(rng, p):
+    """Some non-pointer body parameters take a LIST of models (element validation goes through validateDataRecursive)."""
+    for c in p["controllers"]:
+        for m in c["methods"]:
+            for prm in m["params"]:
+                if (not prm["ctx"]) and prm["loc"] == "body" and prm["type"] == "Item" and not prm["pointer"] and rng.random() < 0.5:
+                    prm["type"] = "[]Item"
+    return p
+
+
 def plan(rng, tier, nproj):
     opts = {"security": True, "params": True, "multipkg": True}
     projects = []
     for i in range(nproj):
-        projects.append(clean_project(P.gen_project(rng, opts), "clean"))
+        projects.append(list_bodies(rng, clean_project(P.gen_project(rng, opts), "clean")))
     # deliberate instances of the known-divergent template classes
     projects.append(clean_project(P.gen_project(rng, opts), "doubled"))
     projects.append(clean_project(P.gen_project(rng, opts), "noslash"))
